@@ -2,7 +2,7 @@
 from .modcommon import run_mod
 
 PROOF = "Props/C04.v"
-RUN_FILES = ["Run/ModuleRun.v"]
+RUN_FILES = ["Run/ModuleRun.v", "Run/ModBytesRun.v"]
 CORR_NAME = "parseM / gc / emitM models vs. real parse, gc, emit_wasm on fixtures and generated modules"
 ASSUMPTIONS = [
     "Model/ParseM.v, EmitM.v, GC.v are hand-written executable models of src/module/*.rs and src/passes/*.rs; attribute plumbing (Gen/Attrs.v), operator tables and visited-reference tables (Gen/Ops.v) are regenerated from the source; the models are tied to the code by replaying every (module, configuration) case on them and comparing the emitted section stream (this run)",
@@ -12,4 +12,11 @@ ASSUMPTIONS = [
 
 
 def correspondence(ctx, thorough, search):
-    return run_mod(ctx, thorough, search, "C04")
+    r = run_mod(ctx, thorough, search, "C04")
+    # the step from BYTES to the section stream the module model starts from (and back, for walrus's output): Model/ModBytes.v
+    from .c12 import modbytes_run
+    d2, c2 = modbytes_run(ctx, thorough, search)
+    r["disagreements"] += d2
+    r.setdefault("coverage", {})["module_bytes"] = c2
+    r["coverage"]["traces_validated_against_impl"] = r["coverage"].get("traces_validated_against_impl", 0) + c2.get("evaluated_in_coq", 0)
+    return r
